@@ -510,8 +510,34 @@ def check(run: Run) -> None:
                             "predicate, which is false during a structural transition, while removed_keys() reports the keys only the previous target had: at the cycle of a "
                             "retarget A -> B a consumer that folds modified_items() + " + nm + "() keeps every A-only key", loc=DV)
 
+    with run.obligation("C13.p", "K1+K7", "in the cycle of a retarget every entry of the NEW target is a modified entry of the consumer (its whole content is new to the reader): "
+                        "the per-slot predicate behind modified_keys / modified_values / modified_items answers `slot_live` during a sampled structural transition and the "
+                        "target's own slot_modified otherwise, and its sibling that drives the delta export (next_modified_slot) walks exactly the live slots - the two agree"):
+        TLO = "src/hgraph/types/time_series/ts_input/target_link_ops.cpp"
+        fa = R.fn(run, TLO, "target_link_dict_slot_modified")
+        roles = [Role("LNULL", "bool", r"target_link_for\(context,memory\)==nullptr|nullptr==target_link_for\(context,memory\)"),
+                 Role("TRANS", "bool", r"target_link_for\(context,memory\)->sampled_structural_transition\(\)")]
+
+        def spec_sm(v):
+            if (not v.b("LNULL")) and v.b("TRANS"):
+                return Expect(ret=r"target_link_target_view\(context,memory\)\.as_dict\(\)\.slot_live\(slot\)")
+            return Expect(ret=r"target_link_target_view\(context,memory\)\.as_dict\(\)\.slot_modified\(slot\)")
+        R.k1(run, "C13.p", fa, roles, spec_sm, what="target_link_dict_slot_modified")
+        fb = R.fn(run, TLO, "target_link_dict_next_modified_slot")
+        cb = R.aliases_of(fb)
+        lps = [l for l in R.loops(fb) if isinstance(l, C.For)]
+        run.sites(len(lps), 1, "transition scan of next_modified_slot")
+        sh = R.loop_shape(lps[0], cb)
+        tests = [cb(s0.cond).replace(" ", "") for s0 in lps[0].body.walk() if isinstance(s0, C.If)]
+        run.count(1, "C13.p.iter")
+        if "slot_capacity(" not in (sh.get("cond_r") or "") or len(tests) != 1 or not re.fullmatch(r".*\.slot_live\(slot\)", tests[0]) or tests[0].startswith("!"):
+            run.finding("C13.p", "target_link_dict_next_modified_slot:transition-scan", f"during a sampled transition next_modified_slot must return every live slot of the new target "
+                        f"(bounded by the slot capacity); it tests {tests} over {sh.get('cond_r')}", loc=fb.loc(lps[0]))
+
 
 VARIANTS = [
+    {"id": "p-seed-C13-6-retarget-modified-only-new-or-ticked", "expect": "C13.p", "edits": [{"file": "src/hgraph/types/time_series/ts_input/target_link_ops.cpp", "find": "                return target.as_dict().slot_live(slot);\n            }\n            return target.as_dict().slot_modified(slot);", "replace": "                auto dict = target.as_dict();\n                return dict.slot_live(slot) && (dict.slot_modified(slot) || target_link_set_slot_added(context, memory, slot));\n            }\n            return target.as_dict().slot_modified(slot);"}]},
+    {"id": "p-export-scan-skips-unmodified", "expect": "C13.p", "edits": [{"file": "src/hgraph/types/time_series/ts_input/target_link_ops.cpp", "find": "                if (dict.slot_live(slot)) { return slot; }\n            }\n            return TS_DATA_NO_CHILD_ID;", "replace": "                if (dict.slot_live(slot) && dict.slot_modified(slot)) { return slot; }\n            }\n            return TS_DATA_NO_CHILD_ID;"}]},
     {"id": "i-owned-row-uses-peered-unbind", "expect": "C13.i", "edits": [{"file": ALT, "find": "                    &unbind_from_ref_owned,", "replace": "                    &unbind_from_ref_peered,"}]},
     {"id": "i-peered-reference-applied-as-non-peered", "expect": "C13.i", "edits": [{"file": ALT, "find": "                    &apply_peered_reference_to_non_peered_from_ref_data,\n                    &apply_non_peered_reference_to_non_peered_from_ref_data,", "replace": "                    &apply_non_peered_reference_to_non_peered_from_ref_data,\n                    &apply_non_peered_reference_to_non_peered_from_ref_data,"}]},
     {"id": "i-empty-reference-not-unbound", "expect": "C13.i", "edits": [{"file": ALT, "find": "            if (reference.is_empty())\n            {\n                plan.ops->unbind(plan, target, modified_time, false);\n                return;\n            }\n\n            if (reference.is_peered())\n            {\n                const auto &output", "replace": "            if (reference.is_empty())\n            {\n                return;\n            }\n\n            if (reference.is_peered())\n            {\n                const auto &output"}]},
